@@ -12,7 +12,7 @@ EXPLANATION = (
     "TryFrom idioms are reduced to semantic normal forms (identity / lossless widen / bit reinterpretation / checked narrowing)."
 )
 
-TRYFROM_FLOOR = 2700
+TRYFROM_FLOOR = 2500  # conversion impls (2,7xx on the pinned tree; an enum merged into a shared module removes a few)
 SOURCES = ["u8", "u16", "u32", "u64", "i8", "i16", "i32", "i64", "usize"]
 
 
